@@ -29,7 +29,24 @@ pub const ASM_BODIES: &[&str] = &[
     "{pasfmt off} mov eax,1\n  mov   eax,  {pasfmt on}   [ebx+4]\n  {PASFMT ON} mov   ecx,edx",
     "mov   eax,  (* pasfmt off *)  [ebx+4]\n    add eax ,1 // pasfmt on\n  sub   eax,2",
     "// pasfmt off\n  mov   eax,  { pasfmt on }   [ebx+4]   ;   inc   eax\n  ret",
+    // conditional directives inside an instruction line
+    "mov {$IFDEF CPUX64}rax{$ELSE}eax{$ENDIF}, 7\n  ret",
+    "xor ecx,ecx\n  mov   {$ifdef A}ebx{$else}edx{$endif} ,  7\n  ret",
+    // (a conditional directive that starts or ends a line of the body is the known finding
+    // asm-line-starting-with-conditional-directive)
+    "mov eax, 7\n  push {$ifdef A}1{$else}2{$endif}\n  ret",
+    "mov {$IFDEF CPUX64}rax{$ELSE}eax{$ENDIF}, 7\n  {$ifdef debug} int 3 {$endif}\n  ret",
+    "{$IFDEF CPUX64}\n  mov   rax,1\n{$ELSE}\n  mov   eax,1\n{$ENDIF}\n  ret",
 ];
+
+/// some line of the asm body starts or ends with a conditional directive
+fn asm_line_starts_with_conditional(body: &str) -> bool {
+    crate::oracle::split_breaks(body).iter().any(|l| {
+        let t = l.trim().to_ascii_lowercase();
+        ["{$if", "(*$if", "{$else", "(*$else", "{$endif", "(*$endif", "{$ifend", "(*$ifend"].iter().any(|p| t.starts_with(p))
+            || ["{$endif}", "{$ifend}", "(*$endif*)", "{$else}"].iter().any(|p| t.ends_with(p))
+    })
+}
 
 struct Region {
     /// byte range in the input
@@ -172,13 +189,13 @@ impl Prop for C07 {
                 let ord = nb_in.ordinal_at(s);
                 let ok = nb_in.len() == nb_out.len() && nb_out.offset_of(ord).is_some_and(|o| output[o..].starts_with(body));
                 if !ok {
-                    out.violate("C07", if obs.has_fallback() { "wrap-fallback" } else { "asm-body-changed" }, format!("[{}] asm instruction lines not reproduced byte for byte: expected {:?} in output {:?}", cfg.short(), short(body, 120), short(&output, 300)), &input, Some(&cfg));
+                    out.violate("C07", if obs.has_fallback() { "wrap-fallback" } else if asm_line_starts_with_conditional(body) { "asm-line-starting-with-conditional-directive" } else { "asm-body-changed" }, format!("[{}] asm instruction lines not reproduced byte for byte: expected {:?} in output {:?}", cfg.short(), short(body, 120), short(&output, 300)), &input, Some(&cfg));
                 }
                 // the leading blanks of the first instruction are part of the verbatim text too
                 if ok {
                     let o = nb_out.offset_of(ord).unwrap();
                     if !output[..o].ends_with(gap) {
-                        out.violate("C07", "asm-body-changed", format!("[{}] blanks in front of the first asm instruction changed: expected {:?}, output has {:?}", cfg.short(), gap, excerpt(&output, o, 12)), &input, Some(&cfg));
+                        out.violate("C07", if asm_line_starts_with_conditional(body) { "asm-line-starting-with-conditional-directive" } else { "asm-body-changed" }, format!("[{}] blanks in front of the first asm instruction changed: expected {:?}, output has {:?}", cfg.short(), gap, excerpt(&output, o, 12)), &input, Some(&cfg));
                     }
                 }
                 out.nontrivial.push(rng::hash_combine(rng::hash_str(&input), rng::hash_str(&cfg.short())));
